@@ -7,6 +7,7 @@ Everything is stated for arbitrary rational multipliers `lam` and arbitrary (sof
 assignment `ev` (so it covers the documented rule and the code as written alike).
 -/
 import FairModel.Lemmas.MomentsReduction
+import FairModel.Lemmas.Oracle
 
 namespace C07
 open Moments
@@ -236,5 +237,373 @@ example : Hard (labelsOf ex1) := by
 example : weighted01 (relabel [2, -1, 0]) (absWeights [2, -1, 0]) [0, 1, 1] = 3 := by decide +kernel
 example : bglSignedWeights [⟨1, "a"⟩, ⟨0, "b"⟩, ⟨1, "b"⟩] (some [1, 2]) = [3, 3, 3] := by decide +kernel
 example : errWeights 2 3 [1, 0] none = [3, -2] := by decide +kernel
+
+/-! ### `_Lagrangian._call_oracle` and `GridSearch.fit` as lifted from the source (`Generated/OracleSrc.lean`)
+
+`Oracle.callOracle*` / `Oracle.callGrid*` arrange the lifted expressions in the order of the code.  Below,
+`w = totalW … = ErrorRate(costs).signed_weights() + constraints.signed_weights(λ)` and
+`L(h) = lagr … h = objective(h) + λ·γ(h)`; `λ` is ANY rational vector (non-negativity is not needed). -/
+
+open Oracle in
+/-- what `_call_oracle` hands to the learner: unless all total weights are 0 (then the normalisation is 0/0), it
+    fits either a copy of the learner or a constant on labels `egLabel(w_i)` and weights `n·|w_i|/Σ|w|`; the
+    constant is used only when every label equals it -/
+theorem call_oracle_cases (ow cw : List Rat) (hS : (egAbsWeights (vadd ow cw)).sum ≠ 0) :
+    callOracle ow cw = .fit (egLabels (vadd ow cw)) (egNormWeights (vadd ow cw)) ∨
+    ∃ c, callOracle ow cw = .dummy c (egLabels (vadd ow cw)) (egNormWeights (vadd ow cw)) ∧
+      ∀ x ∈ egLabels (vadd ow cw), x = c := by
+  unfold callOracle
+  simp only [egSignedWeights_eq, hS, if_false]
+  exact eg_shortcut_cases _ _
+
+open Oracle in
+theorem call_oracle_nan_iff (ow cw : List Rat) :
+    callOracle ow cw = .nanWeights ↔ (egAbsWeights (vadd ow cw)).sum = 0 := by
+  unfold callOracle
+  simp only [egSignedWeights_eq]
+  constructor
+  · intro h
+    by_contra hS
+    simp only [hS, if_false] at h
+    rcases eg_shortcut_cases (egLabels (vadd ow cw)) (egNormWeights (vadd ow cw)) with h' | ⟨c, h', _⟩ <;>
+      rw [h'] at h <;> cases h
+  · intro h; simp [h]
+
+open Oracle in
+/-- one `GridSearch.fit` column: labels `gridLabel(w_i)`, weights `|w_i|` (no normalisation), where the objective's
+    weights are added exactly when the objective is not in the span of the constraints -/
+theorem call_grid_cases (inSpan : Bool) (cw ow : List Rat) :
+    let w := gridSignedWeights inSpan cw ow
+    (w = if inSpan then cw else vadd ow cw) ∧
+    (callGrid inSpan cw ow = .fit (gridLabels w) (gridAbsWeights w) ∨
+     ∃ c, callGrid inSpan cw ow = .dummy c (gridLabels w) (gridAbsWeights w) ∧ ∀ x ∈ gridLabels w, x = c) := by
+  intro w
+  refine ⟨?_, grid_shortcut_cases _ _⟩
+  simp only [w, gridSignedWeights, OracleSrc.gridAddsObjective]
+  cases inSpan <;> simp [gridSignedWeights_eq]
+
+open Oracle in
+/-- (a) best response for the lifted expressions: the weighted 0/1 error of a hard predictor against the labels
+    and (un-normalised) weights of either reduction is `Σ max(w_i,0) − Σ w_i h_i` -/
+theorem call_oracle_best_response (w h : List Rat) (hl : h.length = w.length) (hh : Hard h) :
+    weighted01 (egLabels w) (egAbsWeights w) h = posPart w - dot w h ∧
+    weighted01 (gridLabels w) (gridAbsWeights w) h = posPart w - dot w h :=
+  ⟨weighted01_of_reduces _ _ eg_reduces w h hl hh, weighted01_of_reduces _ _ grid_reduces w h hl hh⟩
+
+open Oracle in
+/-- (b) exact constant and scale, `_call_oracle`: for every hard `h`
+    `weighted error(h) = (n²/S)·L(h) + (n/S)·(Σ max(w_i,0) − n·L(0))`, `S = Σ|w_i| ≠ 0`, `n` = number of rows -/
+theorem eg_weighted_error_affine (ev : Ev) (rows : List Row) (ratio : Rat) (ut : Util) (fp fn : Rat)
+    (lam h : List Rat) (hne : rows ≠ []) (hl : h.length = rows.length)
+    (hy : Hard (labelsOf rows)) (hh : Hard h) :
+    let w := totalW ev rows ratio ut fp fn lam
+    let n := (rows.length : Rat)
+    let S := (egAbsWeights w).sum
+    weighted01 (egLabels w) (egNormWeights w) h
+      = (n ^ 2 / S) * lagr ev rows ratio ut fp fn lam h
+        + (n / S) * (posPart w - n * lagr ev rows ratio ut fp fn lam (List.replicate rows.length 0)) := by
+  intro w n S
+  have hwl : w.length = rows.length := totalW_length ev rows ratio ut fp fn lam
+  rw [egNormWeights_scale, weighted01_scale, (call_oracle_best_response w h (by rw [hwl, hl]) hh).1,
+    dot_totalW ev rows ratio ut fp fn lam h hne hl hy hh.soft, hwl]
+  ring
+
+open Oracle in
+/-- (b) the same for a `GridSearch.fit` column (weights `|w_i|`): scale `n`, constant `Σ max(w_i,0) − n·L(0)` -/
+theorem grid_weighted_error_affine (ev : Ev) (rows : List Row) (ratio : Rat) (ut : Util) (fp fn : Rat)
+    (lam h : List Rat) (hne : rows ≠ []) (hl : h.length = rows.length)
+    (hy : Hard (labelsOf rows)) (hh : Hard h) :
+    let w := totalW ev rows ratio ut fp fn lam
+    let n := (rows.length : Rat)
+    weighted01 (gridLabels w) (gridAbsWeights w) h
+      = n * lagr ev rows ratio ut fp fn lam h
+        + (posPart w - n * lagr ev rows ratio ut fp fn lam (List.replicate rows.length 0)) := by
+  intro w n
+  have hwl : w.length = rows.length := totalW_length ev rows ratio ut fp fn lam
+  rw [(call_oracle_best_response w h (by rw [hwl, hl]) hh).2,
+    dot_totalW ev rows ratio ut fp fn lam h hne hl hy hh.soft]
+  ring
+
+open Oracle in
+/-- (b) hence the arg-min sets coincide, in both directions, over ANY class `H` of hard predictors: `h` minimises the
+    weighted 0/1 error the learner is given iff it minimises `objective + λ·γ` -/
+theorem eg_argmin_iff (ev : Ev) (rows : List Row) (ratio : Rat) (ut : Util) (fp fn : Rat) (lam : List Rat)
+    (H : List Rat → Prop) (hH : ∀ h, H h → h.length = rows.length ∧ Hard h)
+    (hne : rows ≠ []) (hy : Hard (labelsOf rows))
+    (hS : (egAbsWeights (totalW ev rows ratio ut fp fn lam)).sum ≠ 0) (h : List Rat) :
+    MinOver H (weighted01 (egLabels (totalW ev rows ratio ut fp fn lam)) (egNormWeights (totalW ev rows ratio ut fp fn lam))) h
+      ↔ MinOver H (lagr ev rows ratio ut fp fn lam) h := by
+  have hn : (0 : Rat) < (rows.length : Rat) := by
+    have := List.length_pos_of_ne_nil hne
+    exact_mod_cast this
+  have hSpos : 0 < (egAbsWeights (totalW ev rows ratio ut fp fn lam)).sum :=
+    lt_of_le_of_ne (egAbsWeights_sum_nonneg _) (Ne.symm hS)
+  exact minOver_affine H _ _ _ _ (div_pos (pow_pos hn 2) hSpos)
+    (fun h' hh' => eg_weighted_error_affine ev rows ratio ut fp fn lam h' hne (hH h' hh').1 hy (hH h' hh').2) h
+
+open Oracle in
+theorem grid_argmin_iff (ev : Ev) (rows : List Row) (ratio : Rat) (ut : Util) (fp fn : Rat) (lam : List Rat)
+    (H : List Rat → Prop) (hH : ∀ h, H h → h.length = rows.length ∧ Hard h)
+    (hne : rows ≠ []) (hy : Hard (labelsOf rows)) (h : List Rat) :
+    MinOver H (weighted01 (gridLabels (totalW ev rows ratio ut fp fn lam)) (gridAbsWeights (totalW ev rows ratio ut fp fn lam))) h
+      ↔ MinOver H (lagr ev rows ratio ut fp fn lam) h := by
+  have hn : (0 : Rat) < (rows.length : Rat) := by
+    have := List.length_pos_of_ne_nil hne
+    exact_mod_cast this
+  exact minOver_affine H _ _ _ _ hn
+    (fun h' hh' => grid_weighted_error_affine ev rows ratio ut fp fn lam h' hne (hH h' hh').1 hy (hH h' hh').2) h
+
+open Oracle in
+/-- (c) the `DummyClassifier` shortcut is consistent: when every label equals `c`, the constant predictor `c` has
+    weighted error 0, which no predictor whatsoever can beat (non-negative weights) — so it is a minimiser over
+    ANY hypothesis class that contains it, and no worse than every member of one that does not -/
+theorem dummy_is_minimiser (z wt h : List Rat) (c : Rat) (hz : ∀ x ∈ z, x = c) (hw : ∀ x ∈ wt, 0 ≤ x) :
+    weighted01 z wt (List.replicate z.length c) = 0 ∧
+    weighted01 z wt (List.replicate z.length c) ≤ weighted01 z wt h := by
+  have h0 : weighted01 z wt (List.replicate z.length c) = 0 := by
+    rw [← const_eq_replicate z c hz]; exact weighted01_self z wt
+  exact ⟨h0, by rw [h0]; exact weighted01_nonneg z wt h hw⟩
+
+open Oracle in
+/-- (c) in terms of the Lagrangian: whenever `_call_oracle` takes the shortcut with constant `c`, the constant
+    predictor `c` minimises `objective + λ·γ` over ALL hard predictors -/
+theorem eg_dummy_minimises_lagrangian (ev : Ev) (rows : List Row) (ratio : Rat) (ut : Util) (fp fn : Rat)
+    (lam h y wt : List Rat) (c : Rat) (hne : rows ≠ []) (hl : h.length = rows.length)
+    (hy : Hard (labelsOf rows)) (hh : Hard h)
+    (hcall : callOracleParity ev rows ratio ut fp fn lam = .dummy c y wt) :
+    lagr ev rows ratio ut fp fn lam (List.replicate rows.length c) ≤ lagr ev rows ratio ut fp fn lam h := by
+  set w := totalW ev rows ratio ut fp fn lam with hw
+  have hwl : w.length = rows.length := totalW_length ev rows ratio ut fp fn lam
+  have hn : (0 : Rat) < (rows.length : Rat) := by
+    have := List.length_pos_of_ne_nil hne
+    exact_mod_cast this
+  have hS : (egAbsWeights w).sum ≠ 0 := by
+    intro h0
+    have := (call_oracle_nan_iff _ _).mpr h0
+    unfold callOracleParity at hcall
+    rw [this] at hcall; cases hcall
+  have hall : ∀ x ∈ egLabels w, x = c := by
+    unfold callOracleParity at hcall
+    rcases call_oracle_cases _ _ hS with hf | ⟨c', hd, hc'⟩
+    · rw [hf] at hcall; cases hcall
+    · rw [hd] at hcall
+      simp only [Call.dummy.injEq] at hcall
+      rw [← hcall.1]; exact hc'
+  have hwne : w ≠ [] := by
+    intro h0; rw [h0] at hwl; simp at hwl; exact hne (List.eq_nil_of_length_eq_zero hwl.symm)
+  have hc : c = 0 ∨ c = 1 := by
+    obtain ⟨x, hx⟩ := List.exists_mem_of_ne_nil w hwne
+    have := hall (OracleSrc.egLabel x) (by simp only [egLabels, List.mem_map]; exact ⟨x, hx, rfl⟩)
+    rw [← this]; exact egLabel_hard x
+  have hwts : ∀ x ∈ egNormWeights w, 0 ≤ x := by
+    intro x hx
+    rw [egNormWeights_scale] at hx
+    simp only [egAbsWeights, List.mem_map] at hx
+    obtain ⟨a, ⟨b, _, rfl⟩, rfl⟩ := hx
+    exact mul_nonneg (div_nonneg (by positivity) (egAbsWeights_sum_nonneg w)) (egAbs_nonneg b)
+  have hd := (dummy_is_minimiser (egLabels w) (egNormWeights w) h c hall hwts).2
+  have hlen : (egLabels w).length = rows.length := by simp [egLabels, hwl]
+  rw [hlen] at hd
+  have hSpos : 0 < (egAbsWeights w).sum := lt_of_le_of_ne (egAbsWeights_sum_nonneg _) (Ne.symm hS)
+  have e1 := eg_weighted_error_affine ev rows ratio ut fp fn lam _ hne (by simp) hy (hard_replicate rows.length c hc)
+  have e2 := eg_weighted_error_affine ev rows ratio ut fp fn lam h hne hl hy hh
+  simp only [← hw] at e1 e2
+  rw [e1, e2] at hd
+  have hpos : 0 < (rows.length : Rat) ^ 2 / (egAbsWeights w).sum := div_pos (pow_pos hn 2) hSpos
+  have : (rows.length : Rat) ^ 2 / (egAbsWeights w).sum * lagr ev rows ratio ut fp fn lam (List.replicate rows.length c)
+      ≤ (rows.length : Rat) ^ 2 / (egAbsWeights w).sum * lagr ev rows ratio ut fp fn lam h := by linarith
+  exact le_of_mul_le_mul_left this hpos
+
+open Oracle in
+/-- (c) the same for a `GridSearch.fit` column of a parity moment -/
+theorem grid_dummy_minimises_lagrangian (ev : Ev) (rows : List Row) (ratio : Rat) (ut : Util) (fp fn : Rat)
+    (lam h y wt : List Rat) (c : Rat) (hne : rows ≠ []) (hl : h.length = rows.length)
+    (hy : Hard (labelsOf rows)) (hh : Hard h)
+    (hcall : callGridParity ev rows ratio ut fp fn lam = .dummy c y wt) :
+    lagr ev rows ratio ut fp fn lam (List.replicate rows.length c) ≤ lagr ev rows ratio ut fp fn lam h := by
+  set w := totalW ev rows ratio ut fp fn lam with hw
+  have hwl : w.length = rows.length := totalW_length ev rows ratio ut fp fn lam
+  have hn : (0 : Rat) < (rows.length : Rat) := by
+    have := List.length_pos_of_ne_nil hne
+    exact_mod_cast this
+  have hgw : gridSignedWeights OracleSrc.parityObjectiveInSpan (signedWeights ev rows ratio ut lam)
+      (errWeights fp fn (labelsOf rows) none) = w := by
+    have := (call_grid_cases OracleSrc.parityObjectiveInSpan (signedWeights ev rows ratio ut lam)
+      (errWeights fp fn (labelsOf rows) none)).1
+    simpa [OracleSrc.parityObjectiveInSpan, hw, totalW] using this
+  have hall : ∀ x ∈ gridLabels w, x = c := by
+    unfold callGridParity at hcall
+    have := (call_grid_cases OracleSrc.parityObjectiveInSpan (signedWeights ev rows ratio ut lam)
+      (errWeights fp fn (labelsOf rows) none)).2
+    simp only [hgw] at this
+    rcases this with hf | ⟨c', hd, hc'⟩
+    · rw [hf] at hcall; cases hcall
+    · rw [hd] at hcall
+      simp only [Call.dummy.injEq] at hcall
+      rw [← hcall.1]; exact hc'
+  have hwne : w ≠ [] := by
+    intro h0; rw [h0] at hwl; simp at hwl; exact hne (List.eq_nil_of_length_eq_zero hwl.symm)
+  have hc : c = 0 ∨ c = 1 := by
+    obtain ⟨x, hx⟩ := List.exists_mem_of_ne_nil w hwne
+    have := hall (OracleSrc.gridLabel x) (by simp only [gridLabels, List.mem_map]; exact ⟨x, hx, rfl⟩)
+    rw [← this]; exact gridLabel_hard x
+  have hwts : ∀ x ∈ gridAbsWeights w, 0 ≤ x := by
+    intro x hx
+    simp only [gridAbsWeights, List.mem_map] at hx
+    obtain ⟨b, _, rfl⟩ := hx
+    exact gridAbs_nonneg b
+  have hd := (dummy_is_minimiser (gridLabels w) (gridAbsWeights w) h c hall hwts).2
+  have hlen : (gridLabels w).length = rows.length := by simp [gridLabels, hwl]
+  rw [hlen] at hd
+  have e1 := grid_weighted_error_affine ev rows ratio ut fp fn lam _ hne (by simp) hy (hard_replicate rows.length c hc)
+  have e2 := grid_weighted_error_affine ev rows ratio ut fp fn lam h hne hl hy hh
+  simp only [← hw] at e1 e2
+  rw [e1, e2] at hd
+  have : (rows.length : Rat) * lagr ev rows ratio ut fp fn lam (List.replicate rows.length c)
+      ≤ (rows.length : Rat) * lagr ev rows ratio ut fp fn lam h := by linarith
+  exact le_of_mul_le_mul_left this hn
+
+open Oracle in
+/-- (d) a row with signed weight 0 gets sample weight 0 … -/
+theorem zero_signed_weight_zero_weight : OracleSrc.egAbs 0 = 0 ∧ OracleSrc.gridAbs 0 = 0 ∧
+    ∀ n s : Rat, OracleSrc.egNorm n (OracleSrc.egAbs 0) s = 0 := by
+  refine ⟨egAbs_zero, gridAbs_zero, fun n s => ?_⟩
+  rw [egAbs_zero]; unfold OracleSrc.egNorm; simp
+
+open Oracle in
+/-- (d) … and the label of a zero-weight row is irrelevant to every predictor's weighted error … -/
+theorem zero_weight_label_irrelevant (z z' wt h : List Rat) (hlen : z.length = z'.length)
+    (H : ∀ t ∈ (z.zip z').zip wt, t.2 = 0 ∨ t.1.1 = t.1.2) :
+    weighted01 z wt h = weighted01 z' wt h :=
+  weighted01_congr_labels z z' wt h hlen H
+
+open Oracle in
+/-- (d) … so relabelling with `w ≥ 0` instead of `w > 0` gives every predictor the same weighted error, for the
+    plain `|w|` weights of GridSearch and the normalised ones of `_call_oracle` alike -/
+theorem relabel_nonstrict_harmless (w h : List Rat) :
+    weighted01 (w.map (fun x => if x ≥ 0 then (1 : Rat) else 0)) (egAbsWeights w) h
+      = weighted01 (egLabels w) (egAbsWeights w) h ∧
+    weighted01 (w.map (fun x => if x ≥ 0 then (1 : Rat) else 0)) (egNormWeights w) h
+      = weighted01 (egLabels w) (egNormWeights w) h ∧
+    weighted01 (w.map (fun x => if x ≥ 0 then (1 : Rat) else 0)) (gridAbsWeights w) h
+      = weighted01 (gridLabels w) (gridAbsWeights w) h := by
+  have key : ∀ x : Rat, OracleSrc.egAbs x = 0 ∨ (if x ≥ 0 then (1 : Rat) else 0) = OracleSrc.egLabel x := by
+    intro x
+    rcases lt_trichotomy x 0 with hx | hx | hx
+    · right
+      have h1 : ¬ (0 ≤ x) := by linarith
+      have h2 : ¬ (0 < x) := by linarith
+      simp [OracleSrc.egLabel, h1, h2, ge_iff_le, gt_iff_lt]
+    · left; rw [hx]; exact egAbs_zero
+    · right
+      have h1 : (0 : Rat) ≤ x := hx.le
+      simp [OracleSrc.egLabel, h1, hx, ge_iff_le, gt_iff_lt]
+  have keyg : ∀ x : Rat, OracleSrc.gridAbs x = 0 ∨ (if x ≥ 0 then (1 : Rat) else 0) = OracleSrc.gridLabel x := by
+    intro x
+    rcases lt_trichotomy x 0 with hx | hx | hx
+    · right
+      have h1 : ¬ (0 ≤ x) := by linarith
+      have h2 : ¬ (0 < x) := by linarith
+      simp [OracleSrc.gridLabel, h1, h2, ge_iff_le, gt_iff_lt]
+    · left; rw [hx]; exact gridAbs_zero
+    · right
+      have h1 : (0 : Rat) ≤ x := hx.le
+      simp [OracleSrc.gridLabel, h1, hx, ge_iff_le, gt_iff_lt]
+  refine ⟨weighted01_map_congr _ _ _ w h key, ?_, weighted01_map_congr _ _ _ w h keyg⟩
+  rw [egNormWeights_scale, weighted01_scale, weighted01_scale]
+  congr 1
+  exact weighted01_map_congr _ _ _ w h key
+
+/-! ### the regression reductions (loss moments) -/
+
+open Oracle in
+/-- `_call_oracle` for `BoundedGroupLoss` with non-negative multipliers: the labels are passed unchanged, row `i` gets
+    weight `n·(1 + λ_{g_i}/P(g_i)) / S` (the objective `MeanLoss` contributes the 1), and the weighted loss the learner
+    is asked to minimise is an increasing affine function of `mean loss + λ·γ`:
+    `Σ_i redW_i·loss_i(h) = (n²/S)·(mean loss(h) + λ·γ(h))`, `S = Σ_i (1 + λ_{g_i}/P(g_i)) ≥ n > 0` -/
+theorem loss_oracle_identity (l : Loss) (rows : List LRow) (lam h : List Rat) (hne : rows ≠ [])
+    (hlam : ∀ x ∈ lam, 0 ≤ x) (hl : h.length = rows.length) :
+    let w := vadd (bglSignedWeights (allGroup rows) none) (bglSignedWeights rows (some lam))
+    let n := (rows.length : Rat)
+    let S := w.sum
+    n ≤ S ∧
+    (callOracleLoss rows lam = .fit (rows.map (·.y)) (egNormWeights w) ∨
+      ∃ c, callOracleLoss rows lam = .dummy c (rows.map (·.y)) (egNormWeights w) ∧ ∀ r ∈ rows, r.y = c) ∧
+    dot (egNormWeights w) (lossOf l rows h)
+      = (n ^ 2 / S) * ((lossOf l rows h).sum / n + dot lam (bglGamma l rows h)) := by
+  intro w n S
+  have hnd : n = (rows.length : Rat) := rfl
+  have hSd : S = w.sum := rfl
+  have hnpos : (0 : Rat) < n := by
+    have := List.length_pos_of_ne_nil hne
+    rw [hnd]; exact_mod_cast this
+  have hones : bglSignedWeights (allGroup rows) none = List.replicate rows.length 1 := by
+    simp [bglSignedWeights, allGroup, Function.comp_def, List.map_const']
+  have hsw := bglSignedWeights_nonneg rows lam hlam
+  have hwn : ∀ x ∈ w, 0 ≤ x := vadd_nonneg _ _ (by rw [hones]; intro x hx; rw [List.mem_replicate] at hx; rw [hx.2]; norm_num) hsw
+  have hlen : (bglSignedWeights (allGroup rows) none).length = (bglSignedWeights rows (some lam)).length := by
+    simp [bglSignedWeights, allGroup]
+  have hS : S = n + (bglSignedWeights rows (some lam)).sum := by
+    rw [hSd, sum_vadd _ _ hlen, hones, hnd]
+    simp
+  have hSn : n ≤ S := by rw [hS]; have := sum_nonneg' _ hsw; linarith
+  have hSpos : 0 < S := lt_of_lt_of_le hnpos hSn
+  have habs : egAbsWeights w = w := egAbsWeights_of_nonneg w hwn
+  have hwl : w.length = rows.length := by simp [w, vadd, bglSignedWeights, allGroup]
+  refine ⟨hSn, ?_, ?_⟩
+  · unfold callOracleLoss callOracleReg
+    simp only [egSignedWeights_eq]
+    have : (egAbsWeights w).sum ≠ 0 := by rw [habs]; exact hSpos.ne'
+    simp only [w] at this
+    simp only [this, if_false]
+    rcases eg_shortcut_cases (rows.map (·.y)) (egNormWeights w) with hf | ⟨c, hd, hc⟩
+    · left; exact hf
+    · right; exact ⟨c, hd, fun r hr => hc r.y (List.mem_map.mpr ⟨r, hr, rfl⟩)⟩
+  · rw [egNormWeights_scale, habs, hwl, dot_scale_left]
+    have e1 : dot w (lossOf l rows h)
+        = dot (bglSignedWeights (allGroup rows) none) (lossOf l rows h)
+          + dot (bglSignedWeights rows (some lam)) (lossOf l rows h) := dot_vadd_left _ _ _ hlen
+    have e2 : dot (bglSignedWeights (allGroup rows) none) (lossOf l rows h) = (lossOf l rows h).sum := by
+      rw [hones]; exact dot_ones _ _ (by simp [lossOf, hl])
+    have e3 := loss_identity l rows lam h hne
+    have hn0 : n ≠ 0 := hnpos.ne'
+    have e4 : dot (bglSignedWeights rows (some lam)) (lossOf l rows h) = n * dot lam (bglGamma l rows h) := by
+      rw [e3, hnd]; rw [hnd] at hn0; field_simp
+    rw [e1, e2, e4, ← hnd, ← hSd]
+    have hS0 : S ≠ 0 := hSpos.ne'
+    clear_value n S
+    field_simp
+
+open Oracle in
+/-- one `GridSearch.fit` column for `BoundedGroupLoss`: the objective is in the span of the constraints (lifted flag),
+    so the learner gets the labels unchanged and the raw weights `λ_{g_i}/P(g_i)`, whose weighted loss is `n·λ·γ(h)` -/
+theorem loss_grid_identity (l : Loss) (rows : List LRow) (lam h : List Rat) (hne : rows ≠ []) :
+    (callGridLoss rows lam = .fit (rows.map (·.y)) (bglSignedWeights rows (some lam)) ∨
+      ∃ c, callGridLoss rows lam = .dummy c (rows.map (·.y)) (bglSignedWeights rows (some lam)) ∧ ∀ r ∈ rows, r.y = c) ∧
+    dot (bglSignedWeights rows (some lam)) (lossOf l rows h) = (rows.length : Rat) * dot lam (bglGamma l rows h) := by
+  have hn0 : (rows.length : Rat) ≠ 0 := by
+    have := List.length_pos_of_ne_nil hne
+    exact_mod_cast this.ne'
+  constructor
+  · unfold callGridLoss callGridReg
+    simp only [gridSignedWeights, OracleSrc.lossObjectiveInSpan, OracleSrc.gridAddsObjective, Bool.not_true,
+      Bool.false_eq_true, if_false]
+    rcases grid_shortcut_cases (rows.map (·.y)) (bglSignedWeights rows (some lam)) with hf | ⟨c, hd, hc⟩
+    · left; exact hf
+    · right; exact ⟨c, hd, fun r hr => hc r.y (List.mem_map.mpr ⟨r, hr, rfl⟩)⟩
+  · rw [loss_identity l rows lam h hne]; field_simp
+
+example : Oracle.callOracleLoss [⟨1, "a"⟩, ⟨0, "b"⟩, ⟨1/2, "b"⟩] [1, 2] = .fit [1, 0, 1/2] [1, 1, 1] := by decide +kernel
+example : Oracle.callGridLoss [⟨1, "a"⟩, ⟨0, "b"⟩, ⟨1/2, "b"⟩] [1, 2] = .fit [1, 0, 1/2] [3, 3, 3] := by decide +kernel
+
+/-! non-vacuity of the hypotheses above, evaluated by the kernel -/
+example : Oracle.callOracle [1, -1, 1] [1/2, 3, -2] = .fit [1, 1, 0] [1, 4/3, 2/3] := by decide +kernel
+example : Oracle.callOracle [1, 1] [1/2, 3] = .dummy 1 [1, 1] [6/11, 16/11] := by decide +kernel
+example : Oracle.callOracle [1, -1] [-1, 1] = .nanWeights := by decide +kernel
+example : Oracle.callGrid false [1/2, 3, -2] [1, -1, 1] = .fit [1, 1, 0] [3/2, 2, 1] := by decide +kernel
+example : Oracle.callGrid true [1/2, 3, -2] [1, -1, 1] = .fit [1, 1, 0] [1/2, 3, 2] := by decide +kernel
+example : Oracle.callOracleParity (eventOf .eo) ex1 (1/2) defaultUtil 1 1 lam1
+    = .dummy 1 [1, 1, 1, 1, 1, 1] [132/125, 264/125, 96/125, 6/25, 132/125, 96/125] := by decide +kernel
+example : (Oracle.egAbsWeights (Oracle.totalW (eventOf .eo) ex1 (1/2) defaultUtil 1 1 lam1)).sum ≠ 0 := by decide +kernel
 
 end C07
